@@ -90,6 +90,7 @@ func NewNet(r *simkit.Run) *Net {
 		util.Transport.RegisterProtocol("http", netRoundTripper{})
 	})
 	operation.HttpClient = netHTTPClient{}
+	operation.VerifResetCaches()
 	pb.VerifResetGrpcClients()
 	pb.VerifDialOptions = func(address string) []grpc.DialOption {
 		return []grpc.DialOption{
